@@ -121,6 +121,16 @@ pub fn replay_exchange(cfg: Arc<ExchCfg>, v: &Value) -> Result<Option<String>, S
     match replay_trace(Exch::new(cfg.clone())?, &trace) {
         Err((k, w)) => Ok(Some(format!("[{}] {}", k, w))),
         Ok(s) => {
+            // violations found by a hidden-state probe show up when the canonical continuation is run
+            // from the state the trace ends in
+            {
+                use crate::engine::Sys;
+                if !matches!(s.flow, crate::driver::AnyFlow::Cleanup(_)) {
+                    if let Err((k, w)) = s.probe() {
+                        return Ok(Some(format!("[{}:after-noop-call] {}", k, w)));
+                    }
+                }
+            }
             if let Some(exp) = v["expect_outcome"].as_str() {
                 use crate::engine::Sys;
                 if s.outcome() != exp {
